@@ -1,6 +1,6 @@
 """C01 — encode/decode round trip reproduces the geometry exactly (modulo quantization)."""
 from vlib.engine import Case
-from . import e2e, geomgen as G
+from . import e2e, geomgen as G, seqenc_cases
 
 ID = "C01"
 LEVEL = "proof"
@@ -34,6 +34,8 @@ def generate(rng, tier):
                           tags=("mesh" if is_mesh else "pc", "fam:" + fam, "expert" if info["expert"] else "encoder"))
         c.mtag = e2e.model_support_tag
         cases.append(c)
+    # encoder model of the sequential methods vs. the C++ encoders, byte for byte (DracoModel/SeqEncoder.lean)
+    cases += seqenc_cases.cases(rng, 600 if tier == "thorough" else 150, 2000 if tier == "thorough" else 300)
     return cases
 
 
